@@ -1,6 +1,6 @@
 ------------------------------ MODULE Conf_DES ------------------------------
 EXTENDS DES, Json, IOUtils
-VARIABLES l, inst
+VARIABLES tpos, inst
 Rec == ndJsonDeserialize(IOEnv.TRACE)
 OSched(t, k, x) == DESSched(t, k, x)
 OEnc(ks, b) == DESEnc(ks, b)
